@@ -63,3 +63,28 @@ Theorem C19_no_configuration_reaches_ub : forall wrapping events debug d qs ops,
 Proof.
   intros wr ev dbg d qs ops H. destruct (wf_case_never_ub (Config wr ev dbg) d qs ops H) as (sts & ? & ? & _). by exists sts.
 Qed.
+
+(* ---------------------------------------------------------------- the events feature, operation by operation *)
+From Gecs Require Import FeatureFacts.
+
+(** With the events feature on or off (any two configurations that differ at most in it), on every
+    invariant storage: create, create_within_capacity and destroy (any key kind, any 32-bit key) give
+    the same outcome, the same returned handle / components and the same resulting storage up to the
+    logs; the lookups give the same answer outright; and no operation reads the logs. *)
+Theorem C19_events_only_adds_logs : forall c1 c2 s, same_but_events c1 c2 -> Inv s ->
+  (forall vs, length vs = length (cols s) -> ores (push c1 s vs) = ores (push c2 s vs)) /\
+  (forall vs, length vs = length (cols s) -> ores (push_within c1 s vs) = ores (push_within c2 s vs)) /\
+  (forall k h, key32 h -> ores (destroy c1 k s h) = ores (destroy c2 k s h)) /\
+  (forall k h, resolve_for c1 k s h = resolve_for c2 k s h /\ to_direct c1 k s h = to_direct c2 k s h).
+Proof.
+  intros c1 c2 s Hc HI. split_and!.
+  - intros vs Hvs. by apply push_events_conservative.
+  - intros vs Hvs. by apply push_within_events_conservative.
+  - intros k h Hk. by apply destroy_events_conservative.
+  - intros k h. by apply lookups_events_conservative.
+Qed.
+
+Theorem C19_no_operation_reads_the_logs : forall c s, Inv s ->
+  (forall vs, length vs = length (cols s) -> ores (push c (clear_events s) vs) = ores (push c s vs)) /\
+  (forall k h, key32 h -> ores (destroy c k (clear_events s) h) = ores (destroy c k s h)).
+Proof. intros c s HI. split; [intros; by apply push_ignores_logs|intros; by apply destroy_ignores_logs]. Qed.
